@@ -17,6 +17,7 @@ type histPlan struct {
 	Env      []string  `json:"env,omitempty"` // additions to the process environment (read by the driver, not by the worker)
 }
 type histResult struct {
+	ForcedGC   int              `json:"forced_gc,omitempty"`
 	Outcomes   []plan.Outcome   `json:"outcomes"`
 	Delivered  []string         `json:"delivered,omitempty"`
 	Reads      [][]plan.ReadRec `json:"reads,omitempty"`
@@ -49,6 +50,7 @@ func soloOp(op plan.Op) plan.Op {
 	op.Scribble = false
 	op.Cap = 0
 	op.J = 0
+	op.GC = false
 	return op
 }
 
